@@ -166,7 +166,7 @@ def make_system(rng, n_dom=4, n_cplx=4, n_strands=2, n_macro=2, n_rxn=3, sizes=(
         if key in seen_r:
             continue
         seen_r.add(key)
-        rate = rng.choice([1, 5, 0.5, 1e6, 3.25e-4, 120000])
+        rate = rng.choice([1, 5, 0.5, 1e6, 3.25e-4, 120000, 0, 0.0])
         units = "".join("/" + rng.choice(CUNITS) for _ in range(len(re) - 1)) + "/" + rng.choice(TUNITS)
         S.reactions.append((re, pr, rtype, rate, units))
         S.order.append(("reaction", len(S.reactions) - 1))
